@@ -20,7 +20,6 @@ import (
 	"verif/mc/chsim"
 	"verif/mc/fakesql"
 	"verif/mc/fakesql/chbackend"
-	"verif/mc/readerharness"
 )
 
 // ---- statement capture -----------------------------------------------------------------------------------------
@@ -37,7 +36,7 @@ type StmtRec struct {
 // Exec is the reader side under test: the real router (all read routes of reader/main.go) over a scripted
 // database/sql driver whose statements are executed by chsim on the current cell.
 type Exec struct {
-	single, cluster *readerharness.Harness
+	single, cluster *readerSide
 	mu              sync.Mutex
 	cell            *Cell
 	stmts           []StmtRec
@@ -49,8 +48,8 @@ var bookkeepingRe = regexp.MustCompile(`^\s*(SHOW TABLES|SELECT argMax\(name, in
 func newExec() *Exec {
 	x := &Exec{}
 	h := x.handler()
-	x.single = readerharness.New(h, "")
-	x.cluster = readerharness.New(h, "c13cluster")
+	x.single = newReaderSide(h, "")
+	x.cluster = newReaderSide(h, "c13cluster")
 	return x
 }
 
@@ -122,7 +121,7 @@ func (x *Exec) handler() fakesql.Handler {
 	}
 }
 
-func (x *Exec) harness(cluster bool) *readerharness.Harness {
+func (x *Exec) harness(cluster bool) *readerSide {
 	if cluster {
 		return x.cluster
 	}
